@@ -526,6 +526,7 @@ class RecordContextMatcher:
         self.selector_backtrace = []
         self.selector_backtrace_verbosity = backtrace_verbosity
         self.data = {}
+        self.callables = set()
         self.rec = None
 
     def matches(self, rec):
@@ -543,6 +544,9 @@ class RecordContextMatcher:
 
         # Add whitelisted functions to global dict
         self.data.update({func.__name__: func for func in FUNCTION_WHITELIST})
+
+        # Only these names may be called, generator variables that end up in self.data later never are
+        self.callables = {name for name, value in self.data.items() if callable(value)}
 
         self.data["r"] = rec
         self.rec = rec
@@ -636,7 +640,10 @@ class RecordContextMatcher:
                 raise InvalidOperation("Error, only ast.Attribute or ast.Name are expected")
 
             func_name = resolve_attr_path(node)
-            if func_name is None or not (callable(self.data.get(func_name)) or func_name in WHITELIST):
+            root_name = func_name.partition(".")[0] if func_name else None
+            if func_name is None or not (
+                func_name in self.callables or (func_name in WHITELIST and root_name not in self.data)
+            ):
                 raise InvalidOperation(
                     "Call '{}' not allowed. No calls other then whitelisted 'global' calls allowed!".format(func_name)
                 )
